@@ -223,7 +223,13 @@ func ruleSkeletons(c *Ctx, wellFormedRule, enumRule string) {
 			if len(unk) > 0 {
 				msg := "not evaluated: the template is fed data unknown to the placeholder model (" + strings.Join(unk, ", ") + "); defaults were used for type-checking only"
 				r.Notes = append(r.Notes, enumRule+" skeleton "+e.typ+" "+msg)
-				r.OK(enumRule+e.suffix, "skeleton "+e.typ+" shape", "pkg/conversion/conversion.go", msg)
+				// the shape of the text methods does not depend on the invented data: a recognised shape with a
+				// defect is still a defect (an unrecognised one stays not evaluated)
+				if es := classifyEnum(sc, e.pk, e.typ); es.undec == "" && len(es.probs) > 0 {
+					r.Fail(enumRule+e.suffix, "skeleton "+e.typ+" shape", "pkg/conversion/conversion.go", strings.Join(es.probs, "; "))
+				} else {
+					r.OK(enumRule+e.suffix, "skeleton "+e.typ+" shape", "pkg/conversion/conversion.go", msg)
+				}
 				r.OK(enumRule+e.suffix, "skeleton "+e.typ+" tables", "pkg/conversion/conversion.go", msg)
 				r.OK(enumRule, "skeleton "+e.typ+" coverage", "pkg/conversion/conversion.go", msg)
 				continue
